@@ -185,7 +185,7 @@ PENDING = {}
 
 def main():
     props = [json.loads(l) for l in (HERE / "properties.jsonl").read_text().splitlines() if l.strip()]
-    commits = subprocess.run(["git", "-C", "/repo", "log", "--format=%H %s", "-20"], capture_output=True, text=True).stdout.splitlines()
+    commits = subprocess.run(["git", "-C", "/repo", "log", "--format=%H %s", "-80"], capture_output=True, text=True).stdout.splitlines()
     hook_commits = [c.split()[0] for c in commits if "verif hook" in c]
     m = dict(
         version=1,
